@@ -54,6 +54,8 @@ def gen(ctx):
         yield Case("CMPX", G.hx(_src), tags=("other-routes",))
     for _src in G.corner_programs():
         yield Case("CMP", "%s - -" % G.hx(_src), tags=("corner-grid",))
+    for _src in G.short_name_programs():
+        yield Case("CMP", "%s - -" % G.hx(_src), tags=("short-name-of-a-report-variable",))
     n = 30000 if ctx.thorough else 1500
     for i in range(n):
         p = G.gen_program(rng)
